@@ -317,7 +317,7 @@ def check_shape_lookup(r, ctx):
 def s_containment(tier):
     pts = st.lists(st.tuples(st.floats(0, TWO_PI), st.one_of(st.floats(0, 2.5), st.floats(0.8, 1.2))).map(list),
                    min_size=1, max_size=10)
-    return st.fixed_dictionaries({"shape": gg.any_shape(), "pts": pts})
+    return st.fixed_dictionaries({"shape": gg.any_shape(), "pts": pts, "setters": st.sampled_from([False, False, True])})
 
 
 def own_radius(g, a):
@@ -329,7 +329,14 @@ def own_radius(g, a):
 
 def check_containment(r, ctx):
     shape = r["shape"]
-    obj = gg.build_shape(shape)
+    if r.get("setters"):
+        # the shape got its values through the public setters after it had been used with other values
+        def mark(sh):
+            return dict(sh, setters=True, m=[mark(m) for m in sh["m"]]) if sh["k"] == "group" else dict(sh, setters=True)
+        obj = gg.build_shape(mark(shape))
+        ctx.label("values-via-setters")
+    else:
+        obj = gg.build_shape(shape)
     g = gg.shape_geo(shape)
     members = g["m"] if g["k"] == "group" else [g]
     scale = 1 + gg.geo_scale_of(g)
